@@ -155,6 +155,37 @@ CLAIMED = {
             "resize semantics adopted from the emulator (shape judged only); SGR flags, xterm-vs-console differences, wide glyphs in one cell are "
             "DIVERGENCE. 13 defects found and repaired, one known finding (truecolour / palette SGR mix) in findings/C15.json.",
             "DESIGN.md §4 C15"),
+    "C03": ("TLA+ contract TextLayoutOps.tla (one predicate per sentence over layout structures: OrderOnce, OmittedOnlyAllowed, Fits, AnyIsGreedy, "
+            "SpaceBreaksAtSpaces, AlignPad, RenderShowsLayout, RowsEqualLines, UndisplayableIsEmptyLine, plus a greedy RefLayout) model-checked by TLC "
+            "(TextLayout.tla: every text over {a, b, space, newline, wide, zero-width} x width x wrap x align; reference satisfies the contract, eight "
+            "wrong layouts and two wrong displays refuted); TLC trace validation (TextLayoutTrace.tla) of the layout structure, rendered rows and row "
+            "counts recorded from the real StandardTextLayout.layout / Text.rows / Text.pack / Text.render",
+            "TLC shows the contract satisfiable for every bounded input and refutes duplicated, dropped, overflowing, non-greedy, mid-word, wrongly "
+            "padded and over-cut layouts; it then judges, clause by clause, the implementation's own layout (byte offsets converted to character "
+            "indices, an offset inside a character being a rejection) and the rows it renders for every text up to the tier's length and seeded random "
+            "longer texts x widths x {any, space, clip, ellipsis} x {left, center, right} x str|bytes x {utf8, euc-jp, latin-1}, on widgets that carry "
+            "a cached layout for another width/wrap/align; no comparison with the reference layout is made.",
+            "Trusted: TLC, the alphabet table in vf/props/c03.py (checked each run against wcwidth, str.encode and the TLA+ width constant), the "
+            "offset->index and row->class-id projections. Readings fixed in evidence.assumptions: a double-width character is a word of its own for "
+            "'breaks only at spaces'; texts are representable in the encoding; a clipped overlong centred/right line may use any shift that keeps "
+            "the window inside the line; space mode is not required to be greedy. Three defects found and repaired (findings/C03.json).",
+            "DESIGN.md §4 C03"),
+    "C11": ("TLA+ contract StrUtilOps.tla (width, offset-for-column, next/prev, trimming with pad flags, DEC charset encoding as operators "
+            "over texts given as sequences of [width, byte length] characters); consistency model StrUtil.tla model-checked by TLC (laws of the "
+            "property, as-coded calc_trim_text / double-byte offset search / SO-SI splitter against the contract, wrong variants refuted); TLC "
+            "trace validation (StrUtilTrace.tla) of the return values of the real urwid.str_util / urwid.util functions on a str and on its "
+            "encoded bytes in UTF-8, EUC-JP/Big5/GBK and Latin-1 modes, and of a sweep over every Unicode scalar value",
+            "TLC checks additivity, boundary/closest/not-beyond for the offset search, next-prev identity, trim width = range and pad flags <=> "
+            "straddling wide character, run lengths = encoded length and str/bytes agreement on every text of <= 5 character classes x all "
+            "boundary pairs x all columns and ranges; every recorded call of calc_width, calc_text_pos, move_next/prev_char, is_wide_char, "
+            "within_double_byte, decode_one(_right), calc_trim_text, trim_text_attr_cs and apply_target_encoding on all texts of <= 3-5 "
+            "characters per encoding (plus random longer ones) and get_char_width / the UTF-8 path on all 1 112 064 scalar values (thorough; a seeded "
+            "sample plus every width-table boundary in quick) is judged, one named clause per sentence of the property, by the same operators.",
+            "Trusted: TLC, the wcwidth package as the width table (which width a code point ought to have is not decided, only anchors: ASCII, "
+            "U+0300-036F, CJK/hangul/fullwidth), Python codecs for per-character bytes, StrUtilOps.DecTable (VT100 special graphics), the "
+            "call-through recorder in vf/props/c11.py. Calls use offsets on character boundaries and 0 <= start_col < end_col <= width; "
+            "invalid/truncated input is exercised but reported as DIVERGENCE only. Bounds in evidence.",
+            "DESIGN.md §4 C11, §5"),
 }
 
 NOT_APPLICABLE = {}
